@@ -424,12 +424,33 @@ SPECIAL_FRACS = [float("nan"), float("inf"), float("-inf"), -0.55, -0.05, -1.0, 
                  0.29, 0.57, 0.58, 0.7, 1 / 3, 2 / 3, 0.999999999999999, 1.0000000000000002]
 
 
+def ambient_settings(c):
+    """Other, valid, settings of the same algorithm (annealing longer or shorter than the memory-less phase, another population
+    sampler, sampler tuning): none of them may change the length of the memory-less phase.  Deterministic in the case."""
+    import zlib
+    n_iter = c[0]
+    if not (isinstance(n_iter, int) and n_iter >= 20):
+        return {}
+    h = zlib.crc32(repr(c).encode())
+    which = h % 4
+    if which == 0:
+        return {}
+    if which == 1:
+        return dict(annealing=dict(do_annealing=True, n_plateau=2 + (h >> 3) % 3, initial_temperature=3.0,
+                                   n_iter_frac=[0.5, 0.8, 1.0, 0.25][(h >> 5) % 4]))
+    if which == 2:
+        return dict(sampler_pop=["Gibbs", "FastGibbs", "Metropolis-Hastings"][(h >> 3) % 3])
+    return dict(annealing=dict(do_annealing=True, n_plateau=3, initial_temperature=5.0, n_iter=max(2, (n_iter * 9) // 10)),
+                sampler_ind_params=dict(acceptation_history_length=7))
+
+
 def ctor_outcome(env, n_iter, count, frac, power):
     """Real constructor: ('ok', nb, warned) or (error class, None, None)."""
     torch, AlgorithmSettings, algorithm_factory, LAIE = env
     kws = dict(n_iter=n_iter, seed=0, progress_bar=False, burn_in_step_power=power, n_burn_in_iter_frac=frac)
     if count is not None:
         kws["n_burn_in_iter"] = count
+    kws.update(ambient_settings((n_iter, count, frac, power)))
     try:
         with warnings.catch_warnings(record=True) as w:
             warnings.simplefilter("always")
@@ -437,7 +458,8 @@ def ctor_outcome(env, n_iter, count, frac, power):
         nb = algo.algo_parameters["n_burn_in_iter"]
         if type(nb) is not int:
             return (f"err:other:nb-of-type-{type(nb).__name__}", None, None)
-        return ("ok", nb, any(issubclass(x.category, FutureWarning) for x in w))
+        # only the deprecation of the explicit burn-in count is this property's matter (annealing has its own)
+        return ("ok", nb, any(issubclass(x.category, FutureWarning) and "`n_burn_in_iter` setting" in str(x.message) for x in w))
     except Exception as e:  # noqa
         return (err_class(e, LAIE), None, None)
 
